@@ -380,7 +380,7 @@ def main(argv=None):
             "backends": backends, "solver": {k: (round(v, 3) if isinstance(v, float) else v) for k, v in stats.items()},
             "functions_under_contract": sorted({o["target"] for o in outs if o.get("target")}),
             "function_bodies_executed": {k: v for k, v in sorted(executed.items())},
-            "extraction_drops": "type annotations, docstrings, caching decorators (lru_cache/cache), abc/typing machinery; generator functions (yield) are evaluated eagerly into lists (generator expressions are lazy)",
+            "extraction_drops": "type annotations, docstrings, abc/typing machinery; memoising decorators (lru_cache/cache) are modelled with an unbounded store keyed by argument identity / value (maxsize eviction is not modelled); generator functions (yield) are evaluated eagerly into lists (generator expressions are lazy)",
             "undecided": [{"obligation": l, "why": w[:300]} for l, w, _ in undecided],
             "known_findings_hit": sorted(kf_labels), "known_finding_obligation_instances_excluded_from_counts": n_kf_inst,
             "alternatives_dropped": dropped_alts,
